@@ -321,7 +321,7 @@ class WInterp:
                 return True
             if is_assign(x):
                 l = _strip_casts(x.child('lhs'))
-                if l.k == 'DeclRefExpr' and (l.ct or l.t or '') in ('uint8_t', 'unsigned char'):
+                if l.k == 'DeclRefExpr' and (l.ct or l.t or '').replace('const ', '').strip() in ('uint8_t', 'unsigned char'):
                     return True
         return False
 
@@ -429,7 +429,7 @@ class WInterp:
                 if v is not None and v.k == 'VarDecl':
                     self.calls(v.child('init'))
                     key = 'v%d:%s' % (v.d, v.n)
-                    t = v.ct or v.t or ''
+                    t = (v.ct or v.t or '').replace('const ', '').strip()
                     i = _strip_casts(v.child('init')) if v.child('init') is not None else None
                     if i is not None and i.k == 'CXXBoolLiteralExpr':
                         self.scal[key] = bool(i.v)
@@ -477,7 +477,7 @@ class WInterp:
             l = _strip_casts(s.child('lhs'))
             if l.k == 'DeclRefExpr':
                 key = lvalue_key(l)
-                t = l.ct or l.t or ''
+                t = (l.ct or l.t or '').replace('const ', '').strip()
                 if t in ('uint8_t', 'unsigned char'):
                     cur = self.scal.get(key) or (0, 0xFF)
                     b = self.bits(s.child('rhs'))
